@@ -81,8 +81,8 @@ pub fn gen_case(tier: Tier, c: &mut Chooser) -> LefCase {
     let all = cached(&PLAN1, c.choices(), || {
         let mut v = lr::enumerate(&lib, &[], None);
         if value_devs >= 2 {
-            // two value deviations: only the global lexical deviations (END LIBRARY, case, joins, permutations)
-            v.retain(|d| !matches!(d, Dev::Gap { .. } | Dev::Case { .. } | Dev::Spell { .. }));
+            // two value deviations: every lexical deviation except the whitespace / comment gaps
+            v.retain(|d| !matches!(d, Dev::Gap { .. }));
         }
         v
     });
@@ -391,7 +391,7 @@ impl CaseDriver for C04 {
                 lefgen::NUM_ALTS.len(),
                 lefgen::NAME_ALTS.len(),
                 self.bound(tier),
-                if tier.is_thorough() { "; values with two value deviations get the default form and the global lexical deviations only (END LIBRARY, global case, joined properties, permutations); values without value deviation also get every pair of lexical deviations whose second lies within 12 tokens after the first (any distance if the first is global)" } else { "" }
+                if tier.is_thorough() { "; values with two value deviations get the default form and every single lexical deviation except the whitespace/comment gaps; values without value deviation also get every pair of lexical deviations whose second lies within 12 tokens after the first (any distance if the first is global)" } else { "" }
             ),
             assumptions: vec![
                 "decimals are compared by numeric value, never by scale; antenna keys are compared case-insensitively; BEGINEXT data is compared as a token sequence (white-space normalised)".into(),
